@@ -207,6 +207,8 @@ pub struct Ctx {
     pub sub: Mutex<Vec<SubReport>>,
     pub violated: AtomicBool,
     pub scale: f64,
+    /// upper bound on shrink iterations for the next run_prop calls (process-level checks lower it)
+    pub shrink_iters: std::sync::atomic::AtomicU32,
 }
 
 pub struct SubReport {
@@ -255,6 +257,7 @@ impl Ctx {
             sub: Mutex::new(vec![]),
             violated: AtomicBool::new(false),
             scale,
+            shrink_iters: std::sync::atomic::AtomicU32::new(4000),
         }
     }
     pub fn seed_env(&self) -> i64 {
@@ -317,7 +320,7 @@ impl Ctx {
                         cases: per,
                         failure_persistence: None,
                         rng_seed: RngSeed::Fixed(seed),
-                        max_shrink_iters: 4000,
+                        max_shrink_iters: self.shrink_iters.load(Ordering::Relaxed),
                         max_global_rejects: 1_000_000,
                         verbose: 0,
                         ..Config::default()
